@@ -1065,7 +1065,7 @@ func (e flattenEngine) c07(res *runner.Result, c *runner.Case, files map[string]
 	}
 	res.EvMax("max_distinct_getter_orders", len(orders))
 	if len(orders) > 1 {
-		res.Ev("cases_with_varied_map_order", 1)
+		res.Ev("option_sets_with_varied_map_order", 1)
 		if changed {
 			res.Nontrivial = true
 		}
